@@ -32,12 +32,15 @@ Proof.
   - rewrite strip0_cons, IH, Zmod_mod. reflexivity.
 Qed.
 
+Lemma strip0_pdivv : forall p a b, strip0 p (pdivv p a b) = pdivv p a b.
+Proof. intros. unfold pdivv. apply strip0_idem. Qed.
+
 Ltac prun :=
   cbv [freshP pexec pbind pret pload pstor pupd pskip pmk4 loc_eqb Nat.eqb fst snd orb
        V_assign V_add V_sub V_neg V_addin V_subin V_negin V_div V_reversein V_mul_body V_sqr_body V_reverse_copy
        P_mul P_sqr P_reverse P_mulin P_axpy P_axmy P_maxpy P_axpyin P_maxpyin P_axmyin P_divmod P_mod poly_op].
 Ltac pstep := repeat (progress (prun; cbn [Pos.eqb]; pos_facts; cbv iota)).
-Ltac psolve := pstep; repeat (first [split_cond | split_pair]; pstep); rewrite ?strip0_idem; try reflexivity.
+Ltac psolve := pstep; repeat (first [split_cond | split_pair]; pstep); rewrite ?strip0_idem, ?strip0_pdivv; try reflexivity.
 
 (* ---- operation numbers of ModelPoly.poly_op: 0 mul 1 sqr 2 reverse 4 axpy 5 axmy 6 maxpy 10 mod: destination only
         written; 3 mulin 7 axpyin 8 maxpyin 9 axmyin: destination also read.  (11 gcd: below.) *)
